@@ -360,7 +360,7 @@ def _plans(tier, rng):
 def run_bounded(rep: Report, tier: str) -> None:
     global _DEADLINE
     rng = random.Random(f"{seed()}|C01|plans")
-    _DEADLINE = deadline(tier, 150, 25 * 60)  # safety net only: the quick workload is sized for ~25 s on 16 idle cores
+    _DEADLINE = deadline(tier, 300, 25 * 60)  # safety net only: the quick workload is sized for ~25 s on 16 idle cores
     rep.rule = (
         "case = (network, binary tree, size assignment, option tuple (sort priority, traversal order, prefer_einsum, "
         "implementation)); one evaluation = one real tree.contract on polynomial arrays compared with the dense reference. "
